@@ -7,8 +7,10 @@
 #include <osmocom/gsm/gsm_utils.h>
 #include <osmocom/bb/l1sched/l1sched.h>
 
-int main(void)
+#include <stdlib.h>
+int main(int argc, char **argv)
 {
+	static const struct l1sched_tdma_multiframe *first[64][8];
 	static char obuf[1 << 20];
 	setvbuf(stdout, obuf, _IOFBF, sizeof(obuf));
 	printf("MAX %d %d\n", _GSM_PCHAN_MAX, _L1SCHED_CHAN_MAX);
@@ -24,6 +26,7 @@ int main(void)
 	for (int cfg = 0; cfg < _GSM_PCHAN_MAX; cfg++)
 	for (int tn = 0; tn < 8; tn++) {
 		const struct l1sched_tdma_multiframe *mf = l1sched_mframe_layout(cfg, tn);
+		if (cfg < 64) first[cfg][tn] = mf;
 		if (!mf) { printf("L %d %d NULL\n", cfg, tn); continue; }
 		printf("L %d %d %d %u 0x%02x 0x%016" PRIx64 " %s\n", cfg, tn, mf->chan_config, mf->period, mf->slotmask, mf->lchan_mask, mf->frames ? "frames" : "noframes");
 		if (!mf->frames || !mf->period) continue;
@@ -38,6 +41,30 @@ int main(void)
 		}
 		printf("S %d %d %lu\n", cfg, tn, sum);
 	}
+	/* lookup histories: the answer for (combination, timeslot) must not depend on the lookups made before. Descending order,
+	 * each lookup twice, then a generated sequence (xorshift seeded from argv[1]) with runs on one combination / one timeslot */
+	unsigned long n_hist = 0, n_bad = 0;
+	int pc = -1, pt = -1;
+#define LOOK(c, t) do { const struct l1sched_tdma_multiframe *m_ = l1sched_mframe_layout((c), (t)); n_hist++; \
+		if (m_ != first[(c)][(t)] && n_bad++ < 5) printf("O %d %d after %d %d\n", (c), (t), pc, pt); pc = (c); pt = (t); } while (0)
+	int ncfg = _GSM_PCHAN_MAX < 64 ? _GSM_PCHAN_MAX : 64;
+	for (int cfg = ncfg - 1; cfg >= 0; cfg--)
+		for (int tn = 7; tn >= 0; tn--) { LOOK(cfg, tn); LOOK(cfg, tn); }
+	uint64_t x = (argc > 1 ? strtoull(argv[1], 0, 10) : 1) * 0x9E3779B97F4A7C15ull + 1;
+	unsigned long n = argc > 2 ? strtoul(argv[2], 0, 10) : 100000;
+	int cfg = 0, tn = 0;
+	for (unsigned long k = 0; k < n; k++) {
+		x ^= x << 13; x ^= x >> 7; x ^= x << 17;
+		uint32_t r = (uint32_t)(x >> 24);
+		switch (r & 3) {
+		case 0: cfg = (r >> 2) % ncfg; tn = (r >> 10) % 8; break;
+		case 1: tn = (r >> 2) % 8; break;                 /* same combination, another timeslot */
+		case 2: cfg = (r >> 2) % ncfg; break;             /* same timeslot, another combination */
+		default: break;                                   /* the same lookup again */
+		}
+		LOOK(cfg, tn);
+	}
+	printf("H %lu %lu\n", n_hist, n_bad);
 	printf("DONE\n");
 	return 0;
 }
